@@ -242,7 +242,7 @@ fn snapshot(dir: &Path, entries: &[(String, String)]) -> Snap {
 }
 
 fn settle(dir: &Path, entries: &[(String, String)], want: u64) -> Result<Snap, String> {
-    let deadline = Instant::now() + Duration::from_secs(20);
+    let deadline = Instant::now() + Duration::from_secs(6);
     loop {
         if THREAD_PANICKED.load(Ordering::SeqCst) {
             return Err("panic".to_string());
